@@ -27,7 +27,16 @@ Added after the outside review (design.d/AUDIT.md, section C03):
 * the interface through which a pass can see the runner is re-read from the
   source on every run (12 passes ignore the context, one calls only
   `context.template`), and a `context.function` lookup recorded by the harness
-  (not mirrored by the model) is reported."""
+  (not mirrored by the model) is reported.
+
+Added for the seeded change C03-sarif-byte-columns (SARIF columns in bytes,
+stdout columns in characters): in about two thirds of the generated projects
+block comments and `log("...")` string literals with 2-, 3- and 4-byte UTF-8
+scalars are put in front of statements on the same line (decorate_structure),
+and every `file:line:col` header on stdout is compared directly with
+startLine/startColumn of the corresponding SARIF region
+(check_sarif_positions; lib/e2e.py already compared start AND end line/column
+of every SARIF region with the character positions computed in process)."""
 import os
 import re
 import shutil
@@ -89,6 +98,148 @@ def big_structure(rng, counts, extra_template=False):
     if extra_template:
         defs.append(("template", "B0", e2e.template_text(rng, "B0", ["unused", "sig", "cmp"], [])))
     return {"files": [{"name": "user0.circom", "user": True, "pragma": True, "includes": [], "defs": defs, "main": None}]}
+
+
+# --------------------------------------------------------------------------
+# multi-byte text in front of flagged statements (byte column != character column)
+# --------------------------------------------------------------------------
+
+# scalars by UTF-8 width; none of them is '"', '*', '/', a line break or an identifier character of Circom
+MB_CHARS = {
+    2: "äöüßéñµ§Ωжλ¿",
+    3: "≥≤…€→√∑∀字한ก∈",
+    4: "𝔽𝕂𝑥😀🔒🧮𐍈𠜎",
+}
+MB_WORDS = ["groesser", "range", "check", "bits", "n", "x", "ok", "TODO", "in", "out"]
+
+
+def mb_text(rng):
+    """1..4 space separated words; at least one multi-byte scalar, widths drawn per character."""
+    words = []
+    for _ in range(rng.randint(1, 4)):
+        if rng.random() < 0.35:
+            words.append(rng.choice(MB_WORDS))
+        else:
+            words.append("".join(rng.choice(MB_CHARS[rng.choice([2, 3, 4])]) if rng.random() < 0.7
+                                 else rng.choice("abcxyz019") for _ in range(rng.randint(1, 5))))
+    if all(ord(c) < 128 for w in words for c in w):
+        words.insert(rng.randint(0, len(words)), rng.choice(MB_CHARS[rng.choice([2, 3, 4])]))
+    return " ".join(words)
+
+
+def mb_comment(rng):
+    return "/* %s */" % mb_text(rng)
+
+
+def mb_log(rng):
+    # ParseStatementLog with a STRING argument (r#""[^"]*""#): a statement of its own, no finding of its own
+    return 'log("%s");' % mb_text(rng)
+
+
+def decorate_definition(rng, text, p_line=0.5, p_space=0.06):
+    """Puts block comments and `log("...")` statements that contain 2-, 3- and
+    4-byte scalars in front of statements ON THE SAME LINE.  Only the text after
+    the first `{` is touched (the header stays scannable by DEF_RE); a comment
+    may replace any blank (the generated bodies contain no string literal), a
+    log statement is put only at the start of a body line, which in the
+    generated definitions is always the start of a statement of the body."""
+    head, brace, body = text.partition("{")
+    if not brace:
+        return text
+    out = []
+    for n, line in enumerate(body.split("\n")):
+        stripped = line.lstrip(" ")
+        indent = line[:len(line) - len(stripped)]
+        pieces = []
+        for k, part in enumerate(stripped.split(" ")):
+            if k and rng.random() < p_space:
+                pieces.append(mb_comment(rng))
+            pieces.append(part)
+        stripped = " ".join(pieces)
+        if n > 0 and indent and stripped and stripped != "}" and rng.random() < p_line:
+            x = rng.random()
+            pre = [mb_comment(rng)] if x < 0.55 else [mb_log(rng)] if x < 0.8 else \
+                [mb_log(rng), mb_comment(rng)] if x < 0.9 else [mb_comment(rng), mb_log(rng)]
+            stripped = " ".join(pre + [stripped])
+        out.append(indent + stripped)
+    return head + brace + "\n".join(out)
+
+
+def decorate_structure(rng, st, p_project=0.65):
+    """In a fraction of the generated projects every definition (user files and
+    included files) is decorated; the others stay ASCII as before."""
+    if rng.random() >= p_project:
+        return False
+    for f in st["files"]:
+        f["defs"] = [(d[0], d[1], decorate_definition(rng, d[2])) + tuple(d[3:]) for d in f["defs"]]
+    return True
+
+
+def _mb_prefix_width(text_by_path, path, line, col):
+    """Largest UTF-8 width (1 = ASCII only) among the characters in front of
+    character column `col` (1-based) on line `line` of the file; None if unknown."""
+    text = text_by_path.get(path)
+    if text is None:
+        return None
+    lines = text.split("\n")
+    if not 1 <= line <= len(lines):
+        return None
+    return max([len(c.encode("utf-8", "replace")) for c in lines[line - 1][:max(col - 1, 0)]] or [1])
+
+
+def check_sarif_positions(projects, runs, fail, stats):
+    """The property text directly, binary against itself: the k-th SARIF result
+    and the k-th diagnostic on stdout are the same finding (lib/e2e.py judge
+    reports a difference in level / id / message), so every `file:line:col`
+    header codespan printed for it must be the start (startLine, startColumn) of
+    the earliest region of the strongest kind (locations before relatedLocations)
+    the SARIF result has in that file.  Start positions only: stdout does not
+    show where a label ends; endLine/endColumn are compared by lib/e2e.py with the
+    character position of the label's end computed in process."""
+    for r in runs:
+        doc = r.get("sarif_doc")
+        if not r.get("sarif") or r.get("exit") not in (0, 1) or not doc or doc.get("bad"):
+            continue
+        diags = [e for e in r.get("events", []) if e[0] == "diag"]
+        if len(diags) != len(doc["results"]):
+            continue                               # reported by judge (SARIF results differ ...)
+        p = projects[r["p"]]
+        text_by_path = {os.path.join(p.dir, n): t for n, t in p.files.items()} if p.dir else {}
+        what = []
+        for e, x in zip(diags, doc["results"]):
+            lev, rid, msg, locs, rel = x["tuple"]
+            if lev != e[1] or (msg or "").split("\n")[0] != e[3]:
+                break                              # not the same finding: judge reports it
+            for h in e[4]:
+                try:
+                    path, line, col = h.rsplit(":", 2)
+                    line, col = int(line), int(col)
+                except ValueError:
+                    continue
+                uri = "file://" + path.replace('"', "")
+                cands = [l for l in locs if l[0] == uri] or [l for l in rel if l[0] == uri]
+                cands = [l for l in cands if isinstance(l[1], int) and isinstance(l[2], int)]
+                stats["compared"] += 1
+                w = _mb_prefix_width(text_by_path, path, line, col)
+                if w and w > 1:
+                    stats["multibyte"] += 1
+                    stats["by_width"][w] = stats["by_width"].get(w, 0) + 1
+                    stats["projects"].add(r["p"])
+                if not cands:
+                    what.append("finding %s displayed at %s has no SARIF region in that file" % (rid, h))
+                    continue
+                first = min(cands, key=lambda l: (l[1], l[2]))
+                if (first[1], first[2]) != (line, col):
+                    what.append("SARIF position differs from the displayed one: %s %s displayed at %s:%d:%d, SARIF region starts at "
+                                "%d:%d (ends %s:%s)%s" % (lev, rid, os.path.basename(path), line, col, first[1], first[2], first[3], first[4],
+                                                         "; multi-byte characters in front of it on the line" if w and w > 1 else ""))
+        if what:
+            what = what[:3]
+            if r.get("fail"):
+                r["fail"] += what                  # the same list object as the entry in `fail`
+            else:
+                r["fail"] = what
+                fail.append({"run": e2e.run_brief(r), "project": p.describe(), "what": what})
 
 
 EXPECTED_CONTEXT_METHODS = ["function", "is_function", "is_template", "template", "underlying_str"]
@@ -171,10 +322,12 @@ def make_projects(ctx, base, n_lattice, n_sampled, big_counts=()):
     cand = []
     for i in range(n_lattice * 4):
         st = e2e.gen_structure(ctx.rng, rich=False)
-        cand.append(e2e.render_structure(st, tag="small%d" % i, meta={"user_defs": user_defs_of_structure(st)}))
+        mb = decorate_structure(ctx.rng, st)
+        cand.append(e2e.render_structure(st, tag="small%d" % i, meta={"user_defs": user_defs_of_structure(st), "multibyte": mb}))
     for i in range(n_sampled):
         st = e2e.gen_structure(ctx.rng, rich=True)
-        cand.append(e2e.render_structure(st, tag="rich%d" % i, meta={"user_defs": user_defs_of_structure(st)}))
+        mb = decorate_structure(ctx.rng, st)
+        cand.append(e2e.render_structure(st, tag="rich%d" % i, meta={"user_defs": user_defs_of_structure(st), "multibyte": mb}))
     for i, (counts, extra) in enumerate(big_counts):
         st = big_structure(ctx.rng, counts, extra)
         cand.append(e2e.render_structure(st, tag="big%d" % i, meta={"user_defs": user_defs_of_structure(st), "big": list(counts)}))
@@ -208,7 +361,8 @@ STATS = {"excused": set()}
 
 def def_ranges(project):
     """(kind, name) -> (file named on the command line, first byte, end byte) by a
-    textual scan of the user files (generated sources carry no comments)."""
+    textual scan of the user files (the comments and log strings the generator
+    writes never contain a definition header; offsets are counted in bytes)."""
     out = {}
     for a in project.argv:
         text = project.files.get(a)
@@ -371,6 +525,8 @@ def run(ctx, proofs):
             return order
         dis, fail = e2e.evaluate(cli, projects, truths, runs, order_hook)
         order_checked = check_user_definitions(projects, truths, indep, runs, fail)
+        pos_stats = {"compared": 0, "multibyte": 0, "by_width": {}, "projects": set()}
+        check_sarif_positions(projects, runs, fail, pos_stats)
         # witnesses of the repaired defects must show their findings
         for r in runs:
             if r.get("corpus"):
@@ -442,6 +598,11 @@ def run(ctx, proofs):
                 ctx.violation("generator degenerate: no run with exactly 256 / exactly 512 / another count above 256 displayed "
                               "diagnostics (counts seen: %s)" % sorted(big_counts),
                               {"broken": "big_structure of lib/props/C03.py"}, no_input=True)
+            elif pos_stats["multibyte"] < 200 or sorted(pos_stats["by_width"]) != [2, 3, 4] or len(pos_stats["projects"]) < 20:
+                ctx.violation("generator degenerate: only %d displayed positions (in %d projects, widths %s) with multi-byte characters "
+                              "in front of them on the line were compared with their SARIF regions"
+                              % (pos_stats["multibyte"], len(pos_stats["projects"]), sorted(pos_stats["by_width"])),
+                              {"broken": "decorate_structure of lib/props/C03.py"}, no_input=True)
             elif len(lattice_idx) - ncorpus < n_lattice // 2 or len(id_hist) < 10 or len(levels_seen) < 3 or not labelless:
                 ctx.violation("generator degenerate: %d lattice projects, %d ids, levels %s, %d label-less reports"
                               % (len(lattice_idx), len(id_hist), sorted(levels_seen), labelless),
@@ -471,6 +632,16 @@ def run(ctx, proofs):
             "runs_with_substituted_order": len([r for r in runs if r.get("order_substituted")]),
             "runs_by_displayed_count_255plus": {str(k): v for k, v in sorted(big_counts.items())},
             "pass_interface": iface,
+            "projects_with_multibyte_text": len([p for p in projects if p.meta.get("multibyte")]),
+            "sarif_vs_stdout_positions": {
+                "rule": "per run with --sarif-file, per displayed diagnostic, per `file:line:col` header on stdout: compared with "
+                        "startLine/startColumn of the earliest region of the k-th SARIF result in that file (start positions only; "
+                        "end positions are compared with the in-process character position of the label's end by lib/e2e.py)",
+                "compared": pos_stats["compared"],
+                "with_multibyte_characters_before_the_position_on_its_line": pos_stats["multibyte"],
+                "by_widest_preceding_scalar_utf8_bytes": {str(k): v for k, v in sorted(pos_stats["by_width"].items())},
+                "projects_with_such_a_position": len(pos_stats["projects"]),
+            },
             "disagreements_model_vs_impl": len(dis), "spec_failures": len(fail),
             "samples": [{"argv": projects[r["p"]].argv, "options": {k: r[k] for k in ("level", "allow", "verbose", "sarif")},
                          "exit": r["exit"], "displayed": len([e for e in r["events"] if e[0] == "diag"])} for r in sample_runs],
@@ -512,6 +683,8 @@ def replay(ctx, rep):
             return expected_order(p, t, indep[0], logged)
         dis, fail = e2e.evaluate(cli, [p], [t], [r], order_hook)
         check_user_definitions([p], [t], indep, [r], fail)
+        pos_stats = {"compared": 0, "multibyte": 0, "by_width": {}, "projects": set()}
+        check_sarif_positions([p], [r], fail, pos_stats)
         print("argv:", p.argv, "options:", {k: r[k] for k in ("level", "allow", "verbose", "sarif")})
         print("exit status:", r["exit"])
         shown = [e for e in r["events"] if e[0] == "diag"]
@@ -521,6 +694,8 @@ def replay(ctx, rep):
             print("   ... (%d events, %d diagnostics)" % (len(r["events"]), len(shown)))
         print("user definitions (independent record):", indep[0])
         print("analysis order logged by the binary  :", e2e.analysis_order(r["events"]))
+        print("SARIF regions vs displayed positions: %d compared, %d with multi-byte characters in front on the line"
+              % (pos_stats["compared"], pos_stats["multibyte"]))
         print("model disagreements:", dis[0]["what"] if dis else "none")
         print("property failures  :", fail[0]["what"] if fail else "none")
         return 1 if (dis or fail) else 0
